@@ -1,10 +1,14 @@
 from propcommon import *  # noqa
 
 
-def fault_run(nq=150, nt=400, sq=8, st=14):
+def fault_run(nq=150, nt=400, sq=8, st=14, gov=False, inflation=False):
     r = hist_run(nq, nt, sq, st)
-    r["env_quick"]["VERIF_FAULTS"] = "1"
-    r["env_thorough"]["VERIF_FAULTS"] = "1"
+    for k in ("env_quick", "env_thorough"):
+        r[k]["VERIF_FAULTS"] = "1"
+        if gov:
+            r[k]["VERIF_GOVSHOCK"] = "1"
+        if inflation:
+            r[k]["VERIF_INFLATION"] = "1"
     return r
 
 
@@ -12,13 +16,17 @@ CFG = dict(
     level="other",
     lean_modules=["ElysModel.Props.C18"],
     props_files=["ElysModel/Props/C18.lean"],
-    runs=[scn_run("c18"), fault_run(), hist_run(sq=4, st=6)],
+    runs=[scn_run("c18"), fault_run(), hist_run(sq=4, st=6), fault_run(nq=200, sq=5, st=12, gov=True), fault_run(nq=200, sq=5, st=12, gov=True, inflation=True)],
     rule=HIST_RULE + "; with fault sequences: oracle outages (some or all prices removed for 1-6 blocks), block-time gaps of 25 h to 400 days (many epochs at once, every price "
-         "expired), fees paid in uusdc/uatom/uelys, dust amounts from 1 base unit, exits of almost all liquidity; plus directed scenarios (prefix c18)",
+         "expired), fees paid in uusdc/uatom/uelys, dust amounts from 1 base unit, exits of almost all liquidity; governance shocks (one field of a governance-gated message - "
+         "parameter updates of every module, pool parameters, vesting schedules, inflation entries, reward toggles - set to a boundary value of its type and applied like a passed "
+         "proposal when ValidateBasic and the module's own handler accept it); one history in three (and every history of the last run) with Eden inflation and Eden rewards on; "
+         "plus directed scenarios (prefix c18)",
     trusted_base=COMMON_TB + ["a block failure is FinalizeBlock returning an error or panicking, observed directly"],
     assumptions=["partial: the Lean model is the error skeleton of the one end-blocker whose error reaches ABCI (masterchef); panics deep inside unmodelled keepers, out-of-gas, "
                  "DB faults and nil pointers cannot be exhibited by the model and are reached only by the fault-sequence runs (tests)",
-                 "parameter settings at validation extremes are not generated; the static table of blocker error/panic sites (DESIGN 3.2 Gen/Blockers) is not built"],
+                 "parameter settings are explored by single-field boundary shocks of the governance messages the C17 constructor table knows (one field at a time, a fixed set of "
+                 "boundary values per type), not exhaustively; the static table of blocker error/panic sites (DESIGN 3.2 Gen/Blockers) is not built"],
     explanation="PARTIAL (level other). Lean: masterchef's end-blocker cannot fail in any environment that validation and the standard wiring guarantee, whether or not fee conversions "
                 "fail; each hypothesis is needed; witness of the repaired halt. Behavioural: every block of every history, with fault sequences, must be processed without error or panic.",
 )
